@@ -41,6 +41,25 @@ theorem deleteOk_root_cases (r : Router) (t : Bytes) (ts : List (Bytes × List P
   | none => exact Or.inl h1
   | some dd => exact Or.inr (by simp only []; simp at h1; rw [h1])
 
+/-- lookups after a delete that passed validation: exactly the template's keys are gone -/
+theorem deleteOk_find {r : Router} {t : Bytes} {ts : List (Bytes × List Part)} (hS : Node.Shp r.root)
+    (hp : parseTemplates t = .ok ts) :
+    Node.Shp (r.deleteOk t ts).2.root ∧
+    ∀ Q, wfParts Q = true → Node.find (r.deleteOk t ts).2.root Q =
+      if Q ∈ ts.map (fun e => e.2) then none else Node.find r.root Q := by
+  have hwf := parse_wf hp
+  have hw : ∀ P ∈ ts.map (fun e => e.2), wfParts P = true := by
+    intro P hP; obtain ⟨e, he, rfl⟩ := List.mem_map.1 hP; exact hwf e he
+  obtain ⟨hS1, hfind1⟩ := find_foldl_delete (ts.map (fun e => e.2)) r.root hS hw
+  constructor
+  · rcases deleteOk_root_cases r t ts with hr | hr
+    · rw [hr]; exact hS1
+    · rw [hr]; exact Node.optimize_Shp _ hS1
+  · intro Q hQ
+    rcases deleteOk_root_cases r t ts with hr | hr
+    · rw [hr]; exact hfind1 Q hQ
+    · rw [hr, Node.find_optimize _ Q hS1]; exact hfind1 Q hQ
+
 /-- **delete step.** A delete that passed the mismatch scan removes exactly the templates spelled `t` -/
 theorem Reg.delete {r : Router} {L : List LiveT} {t : Bytes} {ts : List (Bytes × List Part)} (h : Reg r.root L)
     (hp : parseTemplates t = .ok ts) (hm : mismatchOf r.root t ts = none) :
